@@ -7,9 +7,20 @@ HARNESSES = [
     H('siphash_bytes', 'siphash.cpp', 'h_siphash_bytes', link=['crypto/siphash.cpp'], variants=[{'MLEN': n} for n in (0, 1, 7, 8, 9, 15, 16, 17)], tvariants=[{'MLEN': n} for n in range(0, 34)],
       unwind=40, timeout=300, opt='-O0', backends=['cvc5', 'kissat', 'cadical'], functions=['CSipHasher::CSipHasher', 'CSipHasher::Write(uint64_t)', 'CSipHasher::Write(std::span)', 'CSipHasher::Finalize', 'SipHashState::SipRound/Compress2/Finalize4'],
       bounds='message lengths 0,1,7,8,9,15,16,17 (thorough 0..33), all bytes and both key words symbolic'),
-    H('siphash_chunks', 'siphash.cpp', 'h_siphash_chunks', link=['crypto/siphash.cpp'], variants=[{'MLEN': n} for n in (9, 17)], tvariants=[{'MLEN': n} for n in (1, 7, 8, 9, 16, 17, 25)],
+    H('siphash_chunks', 'siphash.cpp', 'h_siphash_chunks', link=['crypto/siphash.cpp'], variants=[{'MLEN': 9}, {'MLEN': 17, 'TWO_WRITES': 1}], tvariants=[{'MLEN': n} for n in (1, 7, 8, 9, 16, 17)] + [{'MLEN': 33, 'TWO_WRITES': 1}],
       unwind=40, timeout=300, backends=['kissat', 'cvc5', 'cadical'], functions=['CSipHasher::Write(std::span)', 'CSipHasher::Finalize'],
-      bounds='message lengths 9 and 17 (thorough up to 25), every pair of cut points 0 <= c1 <= c2 <= len enumerated, bytes and keys symbolic'),
+      bounds='length 9: every pair of cut points 0 <= c1 <= c2 <= 9 (three writes); length 17: every single cut point (two writes); thorough: three writes up to length 17, two writes at 33; bytes and keys symbolic'),
     H('siphash_u256', 'siphash.cpp', 'h_siphash_u256', link=['crypto/siphash.cpp', 'uint256.cpp'], unwind=40, timeout=300, opt='-O0', backends=['cvc5', 'kissat', 'cadical'],
       functions=['PresaltedSipHasher::operator()(uint256)', 'PresaltedSipHasher::operator()(uint256, uint32_t)'], bounds='all 256-bit values, 32-bit extra, 128-bit keys'),
+    H('chacha20_block', 'chacha20.cpp', 'h_chacha20_block', variants=[{'NBLK': 1}, {'NBLK': 2}], unwind=140, timeout=600, backends=['kissat-sweep', 'kissat'],
+      functions=['ChaCha20Aligned::ChaCha20Aligned/SetKey', 'ChaCha20Aligned::Seek', 'ChaCha20Aligned::Keystream', 'ChaCha20Aligned::Crypt'], stubs=['memory_cleanse replaced by memset (wiping is not observable here)'],
+      bounds='256-bit key, 96-bit nonce, 32-bit counter all symbolic; 1 and 2 consecutive blocks; symbolic plaintext', assumptions=['block counter does not wrap within the call (RFC 8439 leaves that undefined)']),
+    H('sha256_transform', 'sha256.cpp', 'h_sha256_transform', variants=[{'NBLK': 1}], tvariants=[{'NBLK': 1}, {'NBLK': 2}], unwind=70, timeout=900, opt='-O0', backends=['cvc5'], witness_backends=['default'],
+      functions=['sha256::Transform (generic C++ compression function of crypto/sha256.cpp)'],
+      bounds='256-bit chaining value and 512-bit block fully symbolic, all 64 rounds'),
+    H('sha256_padding', 'sha256.cpp', 'h_sha256_padding', variants=[{'MLEN': n, 'WRITES': 2} for n in (0, 1, 55, 56, 63, 64, 65, 119, 120)] + [{'MLEN': 9, 'WRITES': 3}, {'MLEN': 70, 'WRITES': 3}],
+      tvariants=[{'MLEN': n, 'WRITES': 2} for n in range(0, 131)] + [{'MLEN': n, 'WRITES': 3} for n in (3, 9, 24, 70, 130)],
+      unwind=200, memunwind=136, timeout=300,
+      functions=['CSHA256::CSHA256', 'CSHA256::Write', 'CSHA256::Finalize', 'sha256::Initialize'], stubs=['sha256 compression function replaced by a recorder via the dispatch pointer Transform (the real one is checked by sha256_transform)'],
+      bounds='two writes: lengths 0,1,55,56,63,64,65,119,120 (thorough: every length 0..130); every cut point for lengths <= 65, for longer messages the cuts near block/padding boundaries (c mod 64 in {0,1,2,55,56,57,62,63}, c >= len-1); three writes: length 9 every pair of cuts, lengths 70 (thorough also 24, 130) boundary pairs; message bytes symbolic'),
 ]
